@@ -595,3 +595,226 @@ def distribution(cases, obs):
     for c in cases:
         d[c["scene"]] = d.get(c["scene"], 0) + 1
     return d
+
+
+# ----------------------------------------------------------------------------- real kernel (thorough)
+
+def _abort(sock, action):
+    import socket, struct
+    if action == "rst":
+        sock.setsockopt(socket.SOL_SOCKET, socket.SO_LINGER, struct.pack("ii", 1, 0))
+    sock.close()
+
+
+def real_server_scene(action, point, seed):
+    """Real Server on loopback, three raw peers; peer 1 resets (SO_LINGER 0) or closes at `point` of an exchange in
+    which every connection gets a 300 kB response through small buffers.  Returns (why | None, exception | None)."""
+    import random, socket, time
+    from hio.base import tyming
+    from hio.core.tcp import serving
+    rng = random.Random(seed)
+    port = c09._free_port()
+    tymist = tyming.Tymist()
+    server = serving.Server(ha=("127.0.0.1", port), bs=4096, tymth=tymist.tymen())
+    peers = []
+    try:
+        if not server.reopen():
+            return "cannot listen on loopback", None
+        for i in range(3):
+            p = socket.socket(socket.AF_INET, socket.SOCK_STREAM)
+            p.setsockopt(socket.SOL_SOCKET, socket.SO_RCVBUF, 4096)
+            p.connect(("127.0.0.1", port))
+            p.setblocking(False)
+            peers.append(p)
+        t0 = time.time()
+        while len(server.ixes) < 3:
+            server.serviceConnects()
+            if time.time() - t0 > 10:
+                return "connections not accepted in 10 s", None
+        rms = [server.ixes[p.getsockname()] for p in peers]
+        want = [rng.randbytes(300000) for _ in peers]
+        got = [bytearray() for _ in peers]
+        alive = [True, True, True]
+
+        def act():
+            _abort(peers[1], action)
+            alive[1] = False
+
+        def svc():
+            try:
+                server.service()
+            except Exception as ex:
+                return ex
+            return None
+
+        if point == 0:
+            act()
+        for i, p in enumerate(peers):
+            if alive[i]:
+                p.send(b"request %d" % i)
+        if point == 1:
+            act()
+        time.sleep(0.02)
+        ex = svc()
+        if ex:
+            return f"Server.service raised {type(ex).__name__}", ex
+        for i, rm in enumerate(rms):
+            if rm.ca in server.ixes:
+                server.transmitIx(want[i], rm.ca)
+        ex = svc()
+        if ex:
+            return f"Server.service raised {type(ex).__name__}", ex
+        if point == 2:
+            act()
+        for n in range(4000):
+            if point == 3 and n == 3:
+                act()
+            ex = svc()
+            if ex:
+                return f"Server.service raised {type(ex).__name__}", ex
+            for i, p in enumerate(peers):
+                if alive[i]:
+                    try:
+                        d = p.recv(65536)
+                        got[i].extend(d)
+                    except BlockingIOError:
+                        pass
+            if not alive[1] and all(len(got[i]) == len(want[i]) for i in (0, 2)) and (rms[1].cutoff or rms[1].ca not in server.ixes):
+                break
+            time.sleep(0.001)
+        for i in (0, 2):
+            if bytes(got[i]) != want[i]:
+                return f"sibling {i} received {len(got[i])} of {len(want[i])} bytes (or wrong bytes) after peer 1 {action} at point {point}", None
+            if rms[i].cutoff or bytes(rms[i].rxbs) != b"request %d" % i:
+                return f"sibling {i} was disturbed (cutoff={rms[i].cutoff}, rxbs={bytes(rms[i].rxbs)!r})", None
+        if not rms[1].cutoff:
+            return f"connection of the peer that did {action} at point {point} is not marked cutoff (in ixes: {rms[1].ca in server.ixes})", None
+        return None, None
+    finally:
+        for p in peers:
+            try:
+                p.close()
+            except OSError:
+                pass
+        server.close()
+
+
+def real_client_scene(cls_tls, action, pending, seed):
+    """Real Client against a raw listener; the accepted peer resets or closes while the client is idle or has a
+    large txbs pending; Client.service() must not raise and the client must end cutoff."""
+    import random, socket, time
+    from hio.base import tyming
+    from hio.core.tcp import clienting
+    rng = random.Random(seed)
+    lst = socket.socket(socket.AF_INET, socket.SOCK_STREAM)
+    lst.setsockopt(socket.SOL_SOCKET, socket.SO_RCVBUF, 4096)
+    lst.bind(("127.0.0.1", 0))
+    lst.listen(5)
+    lst.setblocking(False)
+    tymist = tyming.Tymist()
+    client = clienting.Client(ha=lst.getsockname(), bs=4096, tymth=tymist.tymen())
+    conn = None
+    try:
+        client.reopen()
+        t0 = time.time()
+        while conn is None or not client.connected:
+            client.serviceConnect()
+            if conn is None:
+                try:
+                    conn, _ = lst.accept()
+                except BlockingIOError:
+                    pass
+            if time.time() - t0 > 10:
+                return "client did not connect in 10 s", None
+        if pending:
+            client.tx(rng.randbytes(2000000))
+            client.service()
+        _abort(conn, action)
+        conn = None
+        for n in range(2000):
+            try:
+                client.service()
+            except Exception as ex:
+                return f"Client.service raised {type(ex).__name__}", ex
+            if client.cutoff:
+                break
+            time.sleep(0.001)
+        if not client.cutoff:
+            return f"client not marked cutoff after peer {action}", None
+        return None, None
+    finally:
+        if conn is not None:
+            conn.close()
+        lst.close()
+        client.close()
+
+
+def real_sends_only_probe():
+    """Peer closes (FIN); the server then only services sends, twice: the second send meets the RST.  On Linux that is
+    EPIPE.  Returns the exception (or None)."""
+    import socket, time
+    from hio.base import tyming
+    from hio.core.tcp import serving
+    port = c09._free_port()
+    tymist = tyming.Tymist()
+    server = serving.Server(ha=("127.0.0.1", port), bs=4096, tymth=tymist.tymen())
+    p = socket.socket(socket.AF_INET, socket.SOCK_STREAM)
+    try:
+        server.reopen()
+        p.connect(("127.0.0.1", port))
+        t0 = time.time()
+        while not server.ixes and time.time() - t0 < 10:
+            server.serviceConnects()
+        ca = list(server.ixes)[0]
+        p.close()
+        time.sleep(0.05)
+        for k in range(3):
+            server.transmitIx(b"late data %d" % k, ca)
+            try:
+                server.serviceSendsAllIx()
+            except Exception as ex:
+                return ex
+            time.sleep(0.05)
+        return None
+    finally:
+        server.close()
+
+
+def extra(tier, ctx):
+    if tier != "thorough":
+        return {}
+    rep = {"real_kernel": []}
+
+    def note(name, why, ex):
+        rep["real_kernel"].append({"scene": name, "result": why or "ok"})
+        if why is None:
+            return
+        if isinstance(ex, BrokenPipeError):
+            ctx.known_hits["D5"] = ctx.known_hits.get("D5", 0) + 1      # the open EPIPE finding, on a real kernel
+        else:
+            ctx.violations.append({"kind": "real-kernel", "why": f"{name}: {why}", "case": {"real": name, "seed": ctx.seed}})
+
+    for action in ("rst", "fin"):
+        for point in (0, 1, 2, 3):
+            name = f"server/{action}/point{point}"
+            try:
+                why, ex = real_server_scene(action, point, ctx.seed * 10 + point)
+            except Exception as e:
+                why, ex = f"harness: {type(e).__name__}: {e}", None
+            note(name, why, ex)
+        for pending in (False, True):
+            name = f"client/{action}/{'pending' if pending else 'idle'}"
+            try:
+                why, ex = real_client_scene(False, action, pending, ctx.seed)
+            except Exception as e:
+                why, ex = f"harness: {type(e).__name__}: {e}", None
+            note(name, why, ex)
+    try:
+        ex = real_sends_only_probe()
+    except Exception as e:
+        ex = e
+    rep["real_kernel"].append({"scene": "server/fin/sends-only-twice", "result": "ok" if ex is None else type(ex).__name__})
+    if ex is not None:
+        note("server/fin/sends-only-twice", f"serviceSendsAllIx raised {type(ex).__name__}", ex)
+        rep["real_kernel"].pop()
+    return rep
